@@ -899,7 +899,11 @@ fn infer_inner(rng: &mut Rng, tree: &Tree, cfg: &InferCfg, depth: u32, root: boo
             if !kvs.is_empty() && rng.chance(1, 4) {
                 let tys: Vec<Ty> = kvs.iter().map(|(_, x)| infer(rng, x, &InferCfg { mismatch: cfg.mismatch, spanned: 0, any: 0 }, depth + 1, false)).collect();
                 if let Some(u) = unify_all(&tys) {
-                    let kt = if cfg.spanned > 0 && rng.chance(1, 2) {
+                    let numeric = kvs.iter().all(|(k, _)| k.parse::<i64>().is_ok());
+                    let kt = if numeric && rng.chance(1, 2) {
+                        // integer-typed keys: rejected with and without the Spanned wrapper alike
+                        if cfg.spanned > 0 { KeyTy::SpannedI64 } else { KeyTy::I64 }
+                    } else if cfg.spanned > 0 && rng.chance(1, 2) {
                         if rng.chance(1, 3) { KeyTy::NewtypeSpanned("Located".into()) } else { KeyTy::SpannedStr }
                     } else if rng.chance(1, 8) {
                         KeyTy::NewtypeStr("KeyName".into())
